@@ -224,7 +224,9 @@ func refLenient(f family, n *xcbor.Node) (d vdata, ok bool) {
 	if n == nil {
 		return d, false
 	}
-	isNil := func(x *xcbor.Node) bool { return x.Kind == xcbor.Simple && x.Width == 0 && (x.Arg == 22 || x.Arg == 23) }
+	isNil := func(x *xcbor.Node) bool {
+		return x.Kind == xcbor.Simple && x.Width == 0 && (x.Arg == 22 || x.Arg == 23)
+	}
 	uintOf := func(x *xcbor.Node, max uint64) (uint64, bool) {
 		switch {
 		case x.Kind == xcbor.Uint:
